@@ -11,7 +11,7 @@ set -u
 PATCH=$(readlink -f "$1"); NAME=$2; PROPS=$3; TIER=${4:-quick}; TESTS=${5:-}
 . /verif/scripts/env.sh
 WT=/tmp/sbe-$NAME; VD=/tmp/sbe-$NAME-verif; OUT=/tmp/sbe-$NAME-bin
-cleanup() { git -C /repo worktree remove --force "$WT" 2>/dev/null; rm -rf "$WT" "$VD" "$OUT"; git -C /repo worktree prune; }
+cleanup() { find /root/.cache/go-build -type f -amin +120 -delete 2>/dev/null; git -C /repo worktree remove --force "$WT" 2>/dev/null; rm -rf "$WT" "$VD" "$OUT"; git -C /repo worktree prune; }
 trap cleanup EXIT
 cleanup
 git -C /repo worktree add --detach -q "$WT" "${BASE:-HEAD}" || exit 3
